@@ -149,6 +149,24 @@ theorem nextMany_inv {lm : Nat} (ids : List Nat) : ∀ {s : Sess}, SInv lm s →
     refine ⟨s2, r :: rs, ?_, h2, by omega, by simp [l2]⟩
     simp [nextMany, e1, e2]
 
+theorem browse_inv {s : Sess} (sp : Space) (h : SInv sp.lastMod s) (n dir ty : Nat) (sub : Bool) (mask rmask req : Nat) :
+    ∃ s' r, browse sp s n dir ty sub mask rmask req = some (s', r) ∧ SInv sp.lastMod s' ∧ s.nextId ≤ s'.nextId := by
+  unfold browse
+  cases browseDescs sp n dir ty sub mask rmask with
+  | none => exact ⟨_, _, rfl, h, Nat.le_refl _⟩
+  | some ds => exact toResult_inv h ds 0 (clampMax req) (Nat.zero_le _)
+
+theorem browseMany_inv (sp : Space) (dir ty : Nat) (sub : Bool) (mask rmask req : Nat) (ns : List Nat) :
+    ∀ {s : Sess}, SInv sp.lastMod s →
+    ∃ s' rs, browseMany sp dir ty sub mask rmask req s ns = some (s', rs) ∧ SInv sp.lastMod s' ∧ s.nextId ≤ s'.nextId := by
+  induction ns with
+  | nil => intro s h; exact ⟨s, [], rfl, h, Nat.le_refl _⟩
+  | cons n ns ih =>
+    intro s h
+    obtain ⟨s1, r, e1, h1, n1⟩ := browse_inv sp h n dir ty sub mask rmask req
+    obtain ⟨s2, rs, e2, h2, n2⟩ := ih h1
+    exact ⟨s2, r :: rs, by simp [browseMany, e1, e2], h2, by omega⟩
+
 /-! ### the address-space clock only moves forward -/
 
 theorem foldl_lastMod_le (g : Space → Nat → Space) (hg : ∀ sp c, sp.lastMod ≤ (g sp c).lastMod)
@@ -261,6 +279,11 @@ theorem step_lastMod_le (st : St) (op : Op) : st.sp.lastMod ≤ (step st op).1.s
   · split <;> simp
   · split
     · simp
+    · split
+      · simp
+      · split <;> simp
+  · split
+    · simp
     · split <;> simp
   · split <;> simp
 
@@ -275,6 +298,7 @@ theorem change_bumps (st : St) (op : Op) (h : changes st op = true) :
     · rw [hs] at h; simp at h
     · exact hs
   | browse => simp [changes] at h
+  | browsem => simp [changes] at h
   | next => simp [changes] at h
   | release => simp [changes] at h
 
@@ -292,6 +316,14 @@ theorem step_inv (st : St) (op : Op) (h : Inv st) : Inv (step st op).1 ∧ (step
     | some ds =>
       obtain ⟨s', r, e, hi, -⟩ := toResult_inv h ds 0 (clampMax req) (Nat.zero_le _)
       simp [e, hi]
+  | browsem ns dir ty sub mask rmask req limit =>
+    simp only [step, stepWith]
+    split
+    · exact ⟨h, by simp⟩
+    · split
+      · exact ⟨h, by simp⟩
+      · obtain ⟨s', rs, e, hi, -⟩ := browseMany_inv st.sp dir ty sub mask rmask req ns h
+        simp [e, hi]
   | next ids =>
     simp only [step, stepWith]
     split
@@ -473,6 +505,35 @@ theorem nextMany_uses {lm : Nat} {id : Nat} (ids : List Nat) : ∀ {s s' : Sess}
 theorem mutation_keeps_session (st : St) (op : Op) (h : changes st op = true) : (step st op).1.se = st.se := by
   cases op <;> simp [step, stepWith, changes] at *
 
+theorem browse_deadS {sp : Space} {lm0 : Nat} {s s' : Sess} {n dir ty : Nat} {sub : Bool} {mask rmask req id : Nat}
+    {r : BrowseResult} (e : browse sp s n dir ty sub mask rmask req = some (s', r)) (hg : DeadS lm0 s id) :
+    DeadS lm0 s' id := by
+  unfold browse at e
+  cases hb : browseDescs sp n dir ty sub mask rmask with
+  | none => simp [hb] at e; obtain ⟨e1, -⟩ := e; subst e1; exact hg
+  | some ds => simp only [hb] at e; exact toResult_deadS e hg
+
+theorem browseMany_deadS {sp : Space} {lm0 : Nat} {dir ty : Nat} {sub : Bool} {mask rmask req id : Nat} (ns : List Nat) :
+    ∀ {s s' : Sess} {rs : List BrowseResult}, browseMany sp dir ty sub mask rmask req s ns = some (s', rs) →
+      DeadS lm0 s id → DeadS lm0 s' id := by
+  induction ns with
+  | nil => intro s s' rs e hg; simp [browseMany] at e; obtain ⟨e1, -⟩ := e; subst e1; exact hg
+  | cons n ns ih =>
+    intro s s' rs e hg
+    unfold browseMany at e
+    cases h1 : browse sp s n dir ty sub mask rmask req with
+    | none => simp [h1] at e
+    | some p1 =>
+      obtain ⟨s1, r1⟩ := p1
+      simp only [h1] at e
+      cases h2 : browseMany sp dir ty sub mask rmask req s1 ns with
+      | none => simp [h2] at e
+      | some p2 =>
+        obtain ⟨s2, rs2⟩ := p2
+        simp only [h2, Option.some.injEq, Prod.mk.injEq] at e
+        obtain ⟨e1, -⟩ := e; subst e1
+        exact ih h2 (browse_deadS h1 hg)
+
 /-- `Dead` is stable under every operation -/
 theorem step_dead (st : St) (op : Op) (id : Nat) (hd : Dead st id) : Dead (step st op).1 id := by
   have hle := step_lastMod_le st op
@@ -490,6 +551,15 @@ theorem step_dead (st : St) (op : Op) (id : Nat) (hd : Dead st id) : Dead (step 
       cases ht : toResult st.sp.lastMod st.se ds 0 (clampMax req) with
       | none => simpa using hd
       | some p => obtain ⟨s', r⟩ := p; simpa using toResult_deadS ht hd
+  | browsem ns dir ty sub mask rmask req limit =>
+    simp only [step, stepWith]
+    split
+    · exact hd
+    · split
+      · exact hd
+      · cases hb : browseMany st.sp dir ty sub mask rmask req st.se ns with
+        | none => simpa using hd
+        | some p => obtain ⟨s', rs⟩ := p; simpa using browseMany_deadS ns hb hd
   | next ids =>
     simp only [step, stepWith]
     split
